@@ -3,3 +3,22 @@ package byron
 // Overlay shim: accessors for unexported functions (nothing else).
 
 func VerifLargestPowerOfTwoBelow(n int) int { return largestPowerOfTwoBelow(n) }
+
+// VerifMainBlock builds a decoded-looking main block: header with the given body proof, n
+// transactions with the given preserved body/witness bytes, and the preserved delegation and
+// update payload bytes.
+func VerifMainBlock(proof any, txBodies, txWits [][]byte, dlg, upd []byte) *ByronMainBlock {
+	b := &ByronMainBlock{BlockHeader: &ByronMainBlockHeader{BodyProof: proof}}
+	for i := range txBodies {
+		var tx ByronTransaction
+		tx.Body.SetCbor(txBodies[i])
+		tx.twitCbor = txWits[i]
+		b.Body.TxPayload = append(b.Body.TxPayload, tx)
+	}
+	b.Body.dlgPayloadRaw = dlg
+	b.Body.updPayloadRaw = upd
+	return b
+}
+
+// contract used for ValidateSscProofShape where the ssc payload is not under test: well-shaped
+func VerifStubSscShapeOK(b *ByronMainBlock) error { return nil }
